@@ -36,22 +36,25 @@ PROPERTIES["C12"] = {
     "level_text": "bounded symbolic verification: for EVERY list of n distinct symbolic sample indices and EVERY behaviour of the random source (each std::uniform_int_distribution draw is an arbitrary value of its range, so every permutation std::shuffle can produce and every with-replacement selection is covered) the real k-fold / random splitters and the index samplers return sorted, disjoint, covering index sets of the promised sizes; solver verdict per obligation on every path of the real code",
     "level_note": SBV_NOTE,
     "technique": SBV_TECH,
-    "explanation": "C12: kfold_splitter_t::split, random_splitter_t::split, sample_without_replacement, sample_with_replacement executed symbolically from their bitcode (std::shuffle, Eigen segment copies, std::sort, tensor storage as compiled).",
+    "explanation": "C12: kfold_splitter_t::split, random_splitter_t::split, sample_without_replacement, sample_with_replacement (uniform and weighted), gboost::sampler_t::sample (all four sub-sampling types) executed symbolically from their bitcode (std::shuffle, Eigen segment copies, std::sort, tensor storage as compiled).",
     "assumptions": SBV_ASSUME + ["contract: std::uniform_int_distribution<T>::operator()(rng, param) returns an arbitrary value of [param.a, param.b] (replaces the pseudo-random engine: 'any seed' becomes 'any draw sequence')",
-                                 "sample indices: distinct symbolic int64 in [0, 10^6], given in arbitrary order (ordered=0) or increasing order"],
+                                 "sample indices: distinct symbolic int64 in [0, 10^6], given in arbitrary order (ordered=0) or increasing order",
+                                 "contract: std::discrete_distribution<T>::operator()(rng, param) returns an arbitrary index of POSITIVE probability (the standard's distribution; libstdc++ returns index 0 of zero weight only if generate_canonical yields exactly 0.0, i.e. two consecutive minimal draws, which minstd_rand cannot produce) - so the zero-weight clause is verified for libnano's code AROUND the distribution: construction from the weights, alignment of weights with samples (gboost sampler: weights per dataset sample, looked up through the sample list), mapping of the drawn position to the sample index"],
     "bounds": {"n": "3..6 samples with symbolic indices and arbitrary draws; size clause of the random splitter: n in {7,20,25,40} (quick) / every n in 2..40 (thorough) with EVERY train percentage 10..90 symbolic", "folds": "2..3", "count": "<= n"},
     "outside": ["'equal seeds give equal splits' (the random engine is replaced by the contract; determinism of minstd_rand is not examined)",
-                "weighted sampling (std::discrete_distribution on doubles) and points sampled from a ball (floating point): not covered by this engine",
-                "gboost::sampler_t", "n > 6"],
+                "the arithmetic inside std::discrete_distribution (replaced by its contract) and points sampled from a ball (normal variates, sqrt: floating point beyond this engine)",
+                "weighted modes: the zero / positive weight pattern and (gboost sampler) the subset are enumerated by forking, the positive weights themselves are fixed numbers", "n > 6"],
     "units": [
         {"engine": "sbv", "harness": "C12_split", "sources": ["C12_split.cpp"],
          "quick": ["mode=kfold;n=4;folds=2", "mode=kfold;n=5;folds=2", "mode=kfold;n=3;folds=3", "mode=kfold;n=4;folds=3;ordered=1", "mode=random;n=4;folds=2;perc=80",
                    "mode=random;n=3;folds=2;perc=10", "mode=without;n=4;count=2", "mode=without;n=4;count=4", "mode=without;n=4;count=0", "mode=with;n=3;count=3", "mode=with;n=4;count=2",
-                   "mode=randsize;n=7;folds=2", "mode=randsize;n=20;folds=2", "mode=randsize;n=25;folds=2", "mode=randsize;n=40;folds=2"],
+                   "mode=randsize;n=7;folds=2", "mode=randsize;n=20;folds=2", "mode=randsize;n=25;folds=2", "mode=randsize;n=40;folds=2",
+                   "mode=weighted;n=4;count=3", "mode=gsampler;n=3;N=5;type=1", "mode=gsampler;n=3;N=5;type=2", "mode=gsampler;n=3;N=5;type=3", "mode=gsampler;n=3;N=5;type=4"],
          "thorough": ["mode=kfold;n=%d;folds=%d;ordered=%d" % (n, f, o) for (n, f) in ((3, 2), (3, 3), (4, 2), (4, 3), (5, 2), (5, 3), (6, 2), (6, 3)) for o in (0, 1)] +
                      ["mode=random;n=%d;folds=%d;perc=%d" % (n, f, p) for (n, f, p) in ((4, 2, 80), (5, 2, 50), (3, 2, 10), (5, 2, 90), (6, 2, 75), (5, 3, 10))] +
                      ["mode=without;n=%d;count=%d" % (n, c) for (n, c) in ((4, 2), (5, 5), (4, 0), (6, 3), (5, 1))] + ["mode=with;n=%d;count=%d" % (n, c) for (n, c) in ((3, 3), (4, 2), (2, 5), (5, 3))] +
-                     ["mode=randsize;n=%d;folds=2" % n for n in range(2, 41)],
+                     ["mode=randsize;n=%d;folds=2" % n for n in range(2, 41)] +
+                     ["mode=weighted;n=%d;count=%d" % t for t in ((4, 3), (5, 2), (3, 4))] + ["mode=gsampler;n=%d;N=%d;type=%d" % (n, N, t) for (n, N) in ((3, 5), (4, 6), (2, 4)) for t in (1, 2, 3, 4)],
          "budget": {"quick": {"deadline_s": 150, "max_paths": 20000, "query_s": 20}, "thorough": {"deadline_s": 1500, "max_paths": 400000, "query_s": 60}},
          "encoded": ["nano::kfold_splitter_t::split", "nano::random_splitter_t::split", "nano::sample_without_replacement", "nano::sample_with_replacement", "nano::idiv", "nano::make_rng",
                      "std::shuffle<long*, std::minstd_rand> (libstdc++, incl. the two-draws-at-once path)", "std::sort / std::__insertion_sort instantiations on long*", "nano::tensor_t storage / Eigen segment assignment",
